@@ -11,10 +11,10 @@ DBG = "Harness built with debug-assertions and overflow-checks ON so internal as
 
 CHECKS = {
  "C01": C("property-based testing (proptest, seeded, shrinking) + dense length sweep vs an independent spec model",
-   "Exploration: every input length 0..130 KiB (quick) / 0..520 KiB (thorough) in all three modes plus proptest-generated (mode, key/context, boundary-lattice length, content) cases, and 16-64 MiB inputs in the thorough tier, are compared with a recursive-definition model of the BLAKE3 paper pinned to a frozen copy of the official vectors; panics count as failures. The property quantifies over all inputs and has an executable oracle, so generated search is the fitting level; absence beyond the generated cases is not shown.",
+   "Exploration: every input length 0..130 KiB (quick) / 0..520 KiB (thorough) in all three modes plus proptest-generated (mode, key/context, boundary-lattice length, content) cases, 256 KiB-16 MiB inputs, single inputs of 2^31+1 and 2^32+1 bytes, the random generator again at every SIMD level this CPU has (hook 1), and 16-64 MiB inputs in the thorough tier, are compared with a recursive-definition model of the BLAKE3 paper pinned to a frozen copy of the official vectors; panics count as failures. The property quantifies over all inputs and has an executable oracle, so generated search is the fitting level; absence beyond the generated cases is not shown.",
    SPEC + DBG, "DESIGN.md §3 C01"),
  "C02": C("model-based property testing of call histories (proptest vec(op) + interpreter, spec model compared after every op)",
-   "Exploration over histories of update/Write/io::copy/update_reader/update_rayon/update_mmap*/finalize/finalize_xof/count/clone on up to three hashers; sizes are resolved against the running total so block/chunk/power-of-two/SIMD-degree boundaries after odd prefixes are frequent; count(), finalize(), XOF bytes and the one-shot function are compared with the spec model of each instance's bytes after every step.",
+   "Exploration over histories of update/Write/io::copy/update_reader/update_rayon/update_mmap*/finalize/finalize_xof/count/clone/clone_from on up to three hashers, plus few-but-long operations (64 KiB-12 MiB per call) and single updates beyond 2^32 bytes; sizes are resolved against the running total so block/chunk/power-of-two/SIMD-degree boundaries after odd prefixes are frequent; count(), finalize(), XOF bytes and the one-shot function are compared with the spec model of each instance's bytes after every step.",
    SPEC + DBG, "DESIGN.md §3 C02"),
  "C03": C("model-based property testing of OutputReader histories (position model + spec stream)",
    "Exploration over root states (inputs at block/chunk edges, merge_subtrees_root_xof) and histories of fill/read/read_exact/set_position/seek/position/clone with positions on both sides of block counter 2^32 and up to 2^64-1; every read must equal spec S[p..p+n], positions and seek results follow a u64 model, failing seeks leave the position unchanged.",
@@ -23,13 +23,13 @@ CHECKS = {
    "Exploration: the C01/C02/C03/C09 generators are re-run with the whole crate forced to each SIMD level the CPU supports (hook 1) in the asm, prefer_intrinsics, pure and no-default-features builds (thorough: stock no_* feature builds with hooks off); every output is compared with the spec model, so all configurations agree iff each agrees with it. The check fails as an engine error if an expected (build, level) pair did not execute.",
    SPEC + DBG + "Only x86-64 levels present on this CPU (SSE2, SSE4.1, AVX2, AVX-512); NEON/wasm back ends cannot run here.", "DESIGN.md §3 C04"),
  "C05": C("property-based differential testing of kernels (generated argument tuples vs spec compression function)",
-   "Exploration over argument tuples of compress_in_place/compress_xof/hash_many/xof_many (counters around 2^32 carries in every lane, all flag bytes, block lengths 0..=64, 0..=35 inputs at arbitrary alignments) executed on every kernel reachable here: Platform methods at each level in three builds (Unix asm, Rust intrinsics, C AVX-512 intrinsics) and raw FFI to C portable, C intrinsics, Unix assembly and the Windows-GNU assembly (assembled to ELF, called through extern \"win64\").",
+   "Exploration over argument tuples of compress_in_place/compress_xof/hash_many/xof_many (counters around 2^32 carries in every lane, all flag bytes, block lengths 0..=64, 0..=35 inputs at arbitrary alignments) executed on every kernel reachable here: Platform methods at each level in three builds (Unix asm, Rust intrinsics, C AVX-512 intrinsics) and raw FFI to C portable, C intrinsics (also the AVX2 file as compiled under BLAKE3_NO_SSE41), Unix assembly and the Windows-GNU assembly (assembled to ELF, called through extern \"win64\").",
    SPEC + DBG + "MSVC .asm files, NEON and wasm kernels cannot be executed in this sandbox.", "DESIGN.md §3 C05"),
  "C06": C("model-based property testing of C API histories via FFI (spec model + Rust crate as differential oracle)",
-   "Exploration over C histories (4 initialisers, updates, finalize/finalize_seek with seeks up to 2^64-1, reset, struct copy, zero-length calls) x CPU-feature mask x {assembly, C-intrinsics} library builds compiled from /repo/c at check time; outputs vs spec S[seek..seek+n] and vs the Rust crate; hasher bytes compared across finalize; reset hasher in lockstep with a fresh twin; single updates beyond 2^32 bytes; plus a clang ASan+UBSan+libFuzzer target over the C sources (engine/cfuzz/c_api_fuzz.c) with the spec model as in-target oracle (corpus replay + fixed executions).",
+   "Exploration over C histories (4 initialisers, updates, finalize/finalize_seek with seeks up to 2^64-1, reset, struct copy, zero-length calls) x CPU-feature mask x nine library builds compiled from /repo/c at check time (assembly, C intrinsics, both with -DNDEBUG, C intrinsics with BLAKE3_NO_SSE41 / NO_AVX512 / NO_AVX512+NO_AVX2 / all NO_* / NO_SSE2); outputs vs spec S[seek..seek+n] and vs the Rust crate; hasher bytes compared across finalize; reset hasher in lockstep with a fresh twin; single updates beyond 2^32 bytes; plus a clang ASan+UBSan+libFuzzer target over the C sources (engine/cfuzz/c_api_fuzz.c) with the spec model as in-target oracle (corpus replay + fixed executions).",
    SPEC + "Trusts gcc and the symbol-prefixing build (objcopy --redefine-syms) in engine/harness/build.rs.", "DESIGN.md §3 C06"),
  "C07": C("property-based testing with fault observation: guard-page placement, register-sentinel trampolines, forked execution",
-   "Exploration: C05 tuples and C06 histories are re-run in a forked server process with every buffer (inputs, pointer array, key, cv, block, output, the blake3_hasher object) flush against PROT_NONE pages (end- or start-flush) and canaries on the open side; hand-written assembly is called through trampolines that plant sentinels in all callee-saved registers of System V / Win64 and record rsp and DF, entered at every stack alignment mod 64. The C sources (incl. C intrinsics kernels) additionally run under clang ASan+UBSan in a libFuzzer target over API histories (engine/cfuzz/c_api_fuzz.c). A fault, a sanitizer report, a damaged canary, a lost sentinel or a wrong result fails the case (and shrinks). Thorough: also the unsafe Rust intrinsics builds.",
+   "Exploration: C05 tuples and C06 histories are re-run in a forked server process with every buffer (inputs, pointer array, key, cv, block, output, the blake3_hasher object) flush against PROT_NONE pages (end- or start-flush) and canaries on the open side; hand-written assembly is called through trampolines that plant sentinels in all callee-saved registers of System V / Win64 and record rsp and DF, entered at every stack alignment mod 64; byte-granular buffers are also moved off their natural alignment (0..15 bytes). The C sources (incl. C intrinsics kernels) additionally run under clang ASan+UBSan in a libFuzzer target over API histories (engine/cfuzz/c_api_fuzz.c). A fault, a sanitizer report, a damaged canary, a lost sentinel or a wrong result fails the case (and shrinks). Thorough: also the unsafe Rust intrinsics builds.",
    SPEC + "Reads that stay inside the same page as another live buffer are only caught in the placement that isolates that buffer; UB without a symptom under guard pages (assembly) or ASan/UBSan (C sources) is out of reach.", "DESIGN.md §3 C07"),
  "C09": C("property-based testing with a recursive decomposition generator + enumerated helper lattice",
    "Exploration over random valid tree decompositions (split decisions consumed depth-first, per-leaf update splits, 4 modes), fixed power-of-two groupings, subtrees at chunk indices up to 2^54-1, and the two length helpers on a power-of-two lattice plus random u64 arguments; leaf CVs vs spec subtree CVs, roots vs spec hash/XOF, helpers vs closed forms.",
@@ -41,13 +41,13 @@ CHECKS = {
    "Exploration over reader behaviours (short reads, Interrupted, six kinds of hard errors, early EOF in any order), with prefixes and continued use after errors; files of every length around the 16 KiB mapping threshold and beyond through update_mmap, update_mmap_rayon and update_reader(File); special paths (incl. a sysfs file whose mmap fails and large procfs files), named pipes fed in pieces by a writer thread, directory, missing path; Write adapters.",
    SPEC + DBG + "Special files are used only if present with stable finite content; Named pipes are fed a finite script by a writer thread that is always drained; endless devices are excluded (they would hang, which is not evidence).", "DESIGN.md §3 C11"),
  "C14": C("exhaustive sweeps over decomposed value spaces + proptest, independent hex codec as oracle",
-   "Exploration with exhaustive sub-spaces: every byte value at every position of a hash (all conversions incl. serde JSON/CBOR and the legacy CBOR byte string), every byte value at every position of a valid hex string, all lengths 0..=130, from_slice for all lengths 0..=100, all 256 single-bit pairs; plus random inputs.",
+   "Exploration with exhaustive sub-spaces: every byte value at every position of a hash (all conversions incl. serde JSON/CBOR, the legacy CBOR byte string and a non-self-describing bincode-layout format), every byte value at every position of a valid hex string, all lengths 0..=130, from_slice for all lengths 0..=100, all 256 single-bit pairs, all 32640 two-bit pairs, equal differences over every lane subset, slices that extend a hash's own bytes; plus random inputs.",
    "Trusts the independent hex codec in the harness, serde_json and ciborium. Wrong-length serde inputs are not asserted (the property does not state their fate). Timing of equality is out of scope.", "DESIGN.md §3 C14"),
  "C15": C("exhaustive walk of the published vectors + model-based property testing of reference_impl histories",
-   "Every field of /repo/test_vectors/test_vectors.json (read at run time) is checked against the spec model, the frozen official copy, generate_json(), reference_impl, the optimized crate and both C builds (exhaustive, 105 entries + structure); reference_impl::Hasher histories (modes, update splits, output lengths 0..3000) vs spec and the crate.",
+   "Every field of /repo/test_vectors/test_vectors.json (read at run time) is checked against the spec model, the frozen official copy, generate_json(), reference_impl, the optimized crate and both C builds (exhaustive, 105 entries + structure); reference_impl::Hasher histories (modes, update splits, output lengths 0..3000 and now and then 16 KiB / 200 KB / 4 MiB+) vs spec and the crate.",
    SPEC + "The frozen copy in oracle/ (SHA-256 recorded) is what 'published' means here.", "DESIGN.md §3 C15"),
  "C16": C("model-based property testing: trait-driven hasher in lockstep with an inherent twin and the spec model",
-   "Exploration over histories of every method of digest 0.11's Update, FixedOutput(+Reset), ExtendableOutput(+Reset), XofReader, Reset, Digest, DynDigest, KeyInit and Mac (incl. verify* with correct/tampered tags) against a twin driven by inherent methods; outputs, count() and the state left behind compared after every call; guts::ChunkState/parent_cv vs spec chunk/parent CVs and root hashes over the 64-bit counter lattice.",
+   "Exploration over histories of every method of digest 0.11's Update, FixedOutput(+Reset), ExtendableOutput(+Reset), XofReader (read in patterned pieces), Reset, Digest, DynDigest, KeyInit and Mac (incl. verify* with correct/tampered tags) against a twin driven by inherent methods; outputs, count() and the state left behind compared after every call; guts::ChunkState/parent_cv vs spec chunk/parent CVs and root hashes over the 64-bit counter lattice.",
    SPEC + DBG + "guts is_root is only generated with chunk counter 0 (the only root chunk the spec defines).", "DESIGN.md §3 C16"),
  "C17": C("metamorphic property testing (Debug) + memory-snapshot search guided by the spec model (zeroize)",
    "Debug: one history shape with two independent secret assignments must format byte-identically for Hasher (after every update), OutputReader and guts::ChunkState. Zeroize: the spec model lists the secret strings an object may hold (keys, every tree-node CV, running chunk CV, buffered block, root node CV/block); raw object bytes are snapshotted and after zeroize() no 8-byte window of any secret may remain.",
@@ -57,10 +57,10 @@ CHECKS = {
 
 CHECKS.update({
  "C08": C("property-based testing over schedule scripts: scripted fork-join (hook 2 and the C TBB seam) + real rayon pools, serial twin and spec as oracle",
-   "Exploration over (mode, forced SIMD level, prefix, input, suffix) x schedule, where the harness owns the order of the two halves of every recursive split: left-first / right-first / truly concurrent on two threads as a pure function of (seed, split-tree path), through a Join implementation compiled into the crate (hook 2) and through the C library's blake3_compress_subtree_wide_join_tbb seam implemented by the harness; plus update_rayon / update_mmap_rayon in pools of 1..16 threads, and a clang ThreadSanitizer driver over the C TBB seam with every split concurrent. The multithreaded hasher must be observationally equal to a serial twin (count, hash, XOF, again after a common suffix) and to the spec.",
+   "Exploration over (mode, forced SIMD level, prefix, input, suffix) x schedule, where the harness owns the order of the two halves of every recursive split: left-first / right-first / truly concurrent on two threads as a pure function of (seed, split-tree path), through a Join implementation compiled into the crate (hook 2) and through the C library's blake3_compress_subtree_wide_join_tbb seam implemented by the harness; plus update_rayon / update_mmap_rayon in pools of 1..16 threads (inputs up to 24 MiB quick / 64 MiB thorough, pool sizes that are not powers of two over-weighted), and a clang ThreadSanitizer driver over the C TBB seam with every split concurrent. The multithreaded hasher must be observationally equal to a serial twin (count, hash, XOF, again after a common suffix) and to the spec.",
    SPEC + DBG + "Schedules are sampled, not enumerated: the harness controls the ORDER of halves, not instruction interleavings; data-race freedom rests on the borrow checker for safe Rust and on C07 for kernels; real oneTBB is replaced by a pthread seam.", "DESIGN.md §3 C08"),
  "C12": C("property-based testing of the real b3sum binary over generated files, flag combinations and checkfiles (spec model + verdict-by-construction oracle)",
-   "Exploration: the binary compiled from /repo/b3sum/src/main.rs is run on generated files with hostile names and generated combinations of --keyed/--derive-key/--length/--seek/--no-mmap/--num-threads/--raw/--no-names/--tag; stdout must be byte-for-byte the documented line format around spec S[seek..seek+length]; its output is fed back to the real --check. Checkfiles are assembled from entries whose verdict is known by construction (good/stale/missing/directory/malformed, LF/CRLF, plain/tagged): exit status 0 iff all good, OK/FAILED lines in order, diagnostics and the WARNING count.",
+   "Exploration: the binary compiled from /repo/b3sum/src/main.rs is run on generated files with hostile names and generated combinations of --keyed/--derive-key/--length/--seek/--no-mmap/--num-threads/--raw/--no-names/--tag, and on standard input (pipe, file, file at an advanced offset); stdout must be byte-for-byte the documented line format around spec S[seek..seek+length]; its output is fed back to the real --check. Checkfiles are assembled from entries whose verdict is known by construction (good/stale/missing/directory/malformed, LF/CRLF, plain/tagged): exit status 0 iff all good, OK/FAILED lines in order, diagnostics and the WARNING count.",
    SPEC + "b3sum is built through engine/b3shim with a 6-line stand-in for the `wild` crate (not in the offline cache; on Unix wild::args_os is std::env::args_os) and without clap's wrap_help (help text only). Wording of diagnostics is not asserted.", "DESIGN.md §3 C12"),
  "C13": C("property-based round-trip and certificate checking on b3sum's own printer/parser functions + exhaustive single-character mutants",
    "Exploration in-process on b3sum's filepath_to_string and parse_check_line (main.rs is include!-d unchanged): 200k paths from a hostile alphabet in both forms and three terminators must round-trip exactly when representable and be rejected otherwise; arbitrary text, near-valid lines and every single-character replace/insert/delete mutant of valid base lines must never panic, and any accepted line is verified as a certificate against the line text (so lines with several conceivable decompositions cannot raise false alarms); constructed members of the always-error classes must be rejected.",
